@@ -26,7 +26,7 @@ Rec == ndJsonDeserialize(IOEnv.TRACE)
 VARIABLES l, st, mode, who, ndrift, nseg
 vars == <<l, st, mode, who, ndrift, nseg>>
 
-NoState == Init(1, 1, FALSE, FALSE)
+NoState == BSInit(1, 1, FALSE, FALSE)
 TInit == l = 1 /\ st = NoState /\ mode = "idle" /\ who = [job |-> "", p |-> "", to |-> FALSE] /\ ndrift = 0 /\ nseg = 0
 
 (* the steps the code takes without an event, until it needs a receive or emits something *)
@@ -57,7 +57,7 @@ Drift(e, s) ==
   /\ mode' = "lost" /\ ndrift' = ndrift + 1 /\ UNCHANGED <<st, who, nseg>>
 
 Begin(e) ==
-  /\ st' = Settle(Init(e.nl, e.nr, e.cl, e.cr)) /\ mode' = "run"
+  /\ st' = Settle(BSInit(e.nl, e.nr, e.cl, e.cr)) /\ mode' = "run"
   /\ who' = [job |-> e.job, p |-> e.p, to |-> e.to] /\ nseg' = nseg + 1 /\ UNCHANGED ndrift
 
 RecvEv(e, side) ==
